@@ -79,14 +79,22 @@ Fixpoint jsim (a b : jv) {struct a} : bool :=
   end.
 
 (* ------------------------------------------------------------------ strings *)
-(* number of code points of a UTF-8 byte string: bytes that are not continuation bytes 10xxxxxx *)
+(* number of code points of a UTF-8 byte string: the first byte starts a character, after it
+   every byte that is not a continuation byte 10xxxxxx starts one (python strings are always
+   well-formed, so this is the number of characters; a non-empty string has at least one) *)
 Definition is_cont (c : ascii) : bool :=
   let n := nat_of_ascii c in (Nat.leb 128 n && Nat.ltb n 192)%nat.
 
-Fixpoint utf8_len (s : string) : nat :=
+Fixpoint count_starts (s : string) : nat :=
   match s with
   | EmptyString => O
-  | String c r => if is_cont c then utf8_len r else S (utf8_len r)
+  | String c r => if is_cont c then count_starts r else S (count_starts r)
+  end.
+
+Definition utf8_len (s : string) : nat :=
+  match s with
+  | EmptyString => O
+  | String _ r => S (count_starts r)
   end.
 
 Fixpoint has_prefix (p s : string) : option string :=
